@@ -1548,6 +1548,169 @@ example :
 
 end surrogate_fit
 
+/-! ### round 6: `fromJson` into ANY receiver; file names with dots that are not the extension -/
+section load_receiver
+open KawinV.SurrogateFit
+
+variable {δ π : Type}
+
+/-- what `receiver.fromJson(file)` leaves: the receiver's settings, the FILE's data, and per quantity the kernel refitted
+from the file's data (the receiver's old kernel only where the file has no data / no axis for that quantity) -/
+theorem loadInto_spec (h : Hooks π) (hi : Inert h) (r : Surr δ π) (file : Q → Option (Train δ π)) :
+    (loadInto h r file).settings = r.settings ∧ (loadInto h r file).data = file ∧
+    ∀ q, (loadInto h r file).models q = fitted h r.settings (file q) (r.models q) := by
+  obtain ⟨h1, h2, h3⟩ := foldl_fitQ h hi refitOrder
+    ({ settings := r.settings, data := file, models := r.models } : Surr δ π)
+  refine ⟨h1, h2, fun q => ?_⟩
+  have hin : q ∈ refitOrder := by cases q <;> simp [refitOrder]
+  unfold loadInto
+  rw [h3 q]
+  simp only [hin, if_true]
+
+/-- **load overwrites the models**: after `fromJson` every quantity in the file has the FILE's fit (the file's data and rows,
+the receiver's settings) and the file's stored data — whatever data and kernels the receiver held before -/
+theorem load_overwrites_models (h : Hooks π) (hi : Inert h) (r : Surr δ π) (file : Q → Option (Train δ π))
+    (q : Q) (t : Train δ π) (hq : file q = some t) (hc : t.cols ≠ 0) :
+    (loadInto h r file).models q = some { settings := r.settings, payload := t.payload, nodes := h.points t.points } ∧
+    (loadInto h r file).data q = some t := by
+  obtain ⟨_, h2, h3⟩ := loadInto_spec h hi r file
+  refine ⟨?_, by rw [h2, hq]⟩
+  rw [h3 q, hq]
+  simp [fitted, hc]
+
+/-- … so two receivers with the same settings end with the same kernel, whatever either held -/
+theorem load_independent_of_receiver (h : Hooks π) (hi : Inert h) (r1 r2 : Surr δ π) (hs : r1.settings = r2.settings)
+    (file : Q → Option (Train δ π)) (q : Q) (t : Train δ π) (hq : file q = some t) (hc : t.cols ≠ 0) :
+    (loadInto h r1 file).models q = (loadInto h r2 file).models q := by
+  rw [(load_overwrites_models h hi r1 file q t hq hc).1, (load_overwrites_models h hi r2 file q t hq hc).1, hs]
+
+/-- loading into a fresh object is the `rebuild` of the earlier sections -/
+theorem rebuild_is_load_into_fresh (h : Hooks π) (s0 : Settings) (s : Surr δ π) :
+    rebuild h s0 s = loadInto h (empty δ π s0) s.data := rfl
+
+/-- **rebuilt into a trained receiver = original**: for every history on the original and EVERY receiver constructed with
+the same settings (whatever it was trained on or loaded before), after `fromJson` of the original's file the receiver
+holds, for every quantity of the file, the kernel of the original -/
+theorem load_into_receiver_equals_original (h : Hooks π) (hi : Inert h) (s0 : Settings) (ops : List (Op δ π))
+    (hc : ∀ q' t, Op.train q' t ∈ ops → t.cols ≠ 0) (r : Surr δ π) (hr : r.settings = s0)
+    (q : Q) (t : Train δ π) (hq : (runS h (empty δ π s0) ops).data q = some t) (hct : t.cols ≠ 0) :
+    (loadInto h r (runS h (empty δ π s0) ops).data).models q = (runS h (empty δ π s0) ops).models q := by
+  rw [load_independent_of_receiver h hi r (empty δ π s0) (by rw [hr]; rfl) _ q t hq hct,
+    ← rebuild_is_load_into_fresh]
+  exact rebuild_equals_original h hi s0 ops hc q
+
+/-- the code as it is (recorded finding `surrogate-receiver-keeps-model-of-quantity-not-in-file`): a quantity the file
+does NOT hold keeps the receiver's kernel while its stored data are gone -/
+theorem load_keeps_model_of_absent_quantity (h : Hooks π) (hi : Inert h) (r : Surr δ π)
+    (file : Q → Option (Train δ π)) (q : Q) (hq : file q = none) :
+    (loadInto h r file).models q = r.models q ∧ (loadInto h r file).data q = none := by
+  obtain ⟨_, h2, h3⟩ := loadInto_spec h hi r file
+  refine ⟨?_, by rw [h2, hq]⟩
+  rw [h3 q, hq]
+  rfl
+
+/-! witnesses -/
+
+/-- a coarse preliminary training of the driving force (data id 100, two points) -/
+def coarseReceiver : Surr Nat Nat :=
+  runS (code Nat) (empty Nat Nat s0T) [.train .drivingForce { payload := 100, points := [0, 1], cols := 1 }]
+
+/-- the refined file: driving force only (data id 1, four points) -/
+def refinedFile : Q → Option (Train Nat Nat) :=
+  fun q => if q = .drivingForce then some { payload := 1, points := [0, 1, 2, 3], cols := 1 } else none
+
+/-- VARIANT "fit only what is missing": the receiver stores the file's data (id 1) but answers from the kernel of its
+preliminary training (id 100, two nodes); a fresh receiver is unaffected; the code refits (id 1, four nodes) -/
+theorem fit_missing_keeps_stale_model :
+    ((loadIntoFitMissing (code Nat) coarseReceiver refinedFile).models .drivingForce).map (fun f => (f.payload, f.nodes.length)) = some (100, 2) ∧
+    ((loadIntoFitMissing (code Nat) coarseReceiver refinedFile).data .drivingForce).map (·.payload) = some 1 ∧
+    ((loadIntoFitMissing (code Nat) (empty Nat Nat s0T) refinedFile).models .drivingForce).map (fun f => (f.payload, f.nodes.length)) = some (1, 4) ∧
+    ((loadInto (code Nat) coarseReceiver refinedFile).models .drivingForce).map (fun f => (f.payload, f.nodes.length)) = some (1, 4) := by
+  decide
+
+/-- non-vacuity of `load_overwrites_models` / `load_into_receiver_equals_original` on the same receiver and file -/
+example : (loadInto (code Nat) coarseReceiver refinedFile).models .drivingForce
+    = some { settings := coarseReceiver.settings, payload := 1, nodes := [0, 1, 2, 3] } :=
+  (load_overwrites_models (code Nat) code_inert coarseReceiver refinedFile .drivingForce
+    { payload := 1, points := [0, 1, 2, 3], cols := 1 } rfl (by decide)).1
+
+/-- the finding on a concrete receiver: trained for diffusivity, the file holds the driving force only -/
+example :
+    let r : Surr Nat Nat := runS (code Nat) (empty Nat Nat s0T) [.train .diffusivity { payload := 7, points := [0, 1], cols := 2 }]
+    ((loadInto (code Nat) r refinedFile).models .diffusivity).isSome = true ∧
+    ((loadInto (code Nat) r refinedFile).data .diffusivity).isSome = false := by
+  decide
+
+end load_receiver
+
+section file_names
+
+theorem npzName_of_suffix (f : String) (h : ".npz".toList.isSuffixOf f.toList = true) : npzName f = f := by
+  unfold npzName; rw [h]; rfl
+
+theorem npzName_of_no_suffix (f : String) (h : ".npz".toList.isSuffixOf f.toList = false) : npzName f = f ++ ".npz" := by
+  unfold npzName; rw [h]; rfl
+
+/-- **two different names never share a file**: names of the same spelling (both without the `.npz` suffix, or both with
+it) that differ — anywhere, also only behind a dot — are saved to / loaded from different files -/
+theorem npzName_injective_on_distinct_names (f g : String)
+    (hsp : ".npz".toList.isSuffixOf f.toList = ".npz".toList.isSuffixOf g.toList) (hne : f ≠ g) :
+    npzName f ≠ npzName g := by
+  intro heq
+  cases hf : ".npz".toList.isSuffixOf f.toList with
+  | true =>
+    rw [npzName_of_suffix f hf, npzName_of_suffix g (hsp ▸ hf)] at heq
+    exact hne heq
+  | false =>
+    rw [npzName_of_no_suffix f hf, npzName_of_no_suffix g (hsp ▸ hf)] at heq
+    exact hne (append_right_inj_str f g ".npz" heq)
+
+/-- the only aliasing: the two spellings of ONE name -/
+theorem npzName_alias_iff_spellings (f g : String) (hf : ".npz".toList.isSuffixOf f.toList = false)
+    (hg : ".npz".toList.isSuffixOf g.toList = true) : npzName f = npzName g ↔ g = f ++ ".npz" := by
+  rw [npzName_of_no_suffix f hf, npzName_of_suffix g hg]
+  exact eq_comm
+
+/-- a save to a different name (same spelling) does not change what the last save to `f` was -/
+theorem lastSaved_ignores_other_name (sp : Spec) (p : Proc α) (f g : String) (i : Nat) (before : List (Op α))
+    (hsp : ".npz".toList.isSuffixOf g.toList = ".npz".toList.isSuffixOf f.toList) (hne : g ≠ f) :
+    lastSaved sp p f (.save i g :: before) = lastSaved sp p f before := by
+  simp [lastSaved, npzName_injective_on_distinct_names g f hsp hne]
+
+/-- VARIANT `os.path.splitext(name)[0] + '.npz'`: two check points named after the model time share ONE file, which the
+code's rule keeps apart -/
+theorem splitext_aliases_distinct_names :
+    splitextName "a_0.25h" = "a_0.npz" ∧ splitextName "a_0.5h" = "a_0.npz" ∧
+    npzName "a_0.25h" = "a_0.25h.npz" ∧ npzName "a_0.5h" = "a_0.5h.npz" ∧
+    splitextName "prec" = npzName "prec" ∧ splitextName "prec.npz" = npzName "prec.npz" := by
+  decide
+
+/-- … so the later check point overwrites the earlier one: reading the earlier name returns the later contents, and the
+directory holds one file instead of two -/
+theorem splitext_later_save_overwrites (d1 d2 : Dict α) :
+    Store.read? (Store.writeNamed splitextName (Store.writeNamed splitextName [] "a_0.25h" d1) "a_0.5h" d2) (splitextName "a_0.25h") = some d2 ∧
+    Store.read? (Store.writeNamed npzName (Store.writeNamed npzName [] "a_0.25h" d1) "a_0.5h" d2) (npzName "a_0.25h") = some d1 ∧
+    (Store.writeNamed splitextName (Store.writeNamed splitextName [] "a_0.25h" d1) "a_0.5h" d2).names.length = 1 ∧
+    (Store.writeNamed npzName (Store.writeNamed npzName [] "a_0.25h" d1) "a_0.5h" d2).names.length = 2 := by
+  obtain ⟨h1, h2, h3, h4, _, _⟩ := splitext_aliases_distinct_names
+  simp only [Store.writeNamed, Store.write, Store.read?, Store.names, h1, h2, h3, h4]
+  refine ⟨by simp, ?_, ?_, ?_⟩
+  · have : ("a_0.5h.npz" : String) ≠ "a_0.25h.npz" := by decide
+    simp [this]
+  · show ((["a_0.npz", "a_0.npz"] : List String).eraseDups.length = 1)
+    decide
+  · show ((["a_0.5h.npz", "a_0.25h.npz"] : List String).eraseDups.length = 2)
+    decide
+
+/-- non-vacuity: the hypothesis set of `npzName_injective_on_distinct_names` holds for the two check-point names -/
+example : npzName "a_0.25h" ≠ npzName "a_0.5h" :=
+  npzName_injective_on_distinct_names _ _ (by decide) (by decide)
+
+example : npzName "v1.0.npz" ≠ npzName "v1.1.npz" :=
+  npzName_injective_on_distinct_names _ _ (by decide) (by decide)
+
+end file_names
+
 /-! ### EVERY class with a save / load pair, every keyword branch of `save` (generated table `saveTables`) -/
 
 section save_tables
